@@ -30,7 +30,7 @@ def plan(tier):
 
 
 def floors(tier):
-    return {"min_decided": 20000, "counters": {"alloc_calls": 30000, "trades": 15000, "closeouts": 500, "refused_bad_price": 300, "zero_amount": 300},
+    return {"min_decided": 20000, "counters": {"alloc_calls": 30000, "trades": 15000, "closeouts": 500, "refused_bad_price": 300, "zero_amount": 300, "zero_amount_bad_price": 100},
             "max_undecided_frac": 0.3}
 
 
@@ -123,6 +123,8 @@ def one(rng, j):
         bad = "nan"
     elif r < 0.06:
         bad = "zero"
+    elif cls == "zero" and r < 0.4:
+        bad = "nan" if r < 0.23 else "zero"      # nothing is asked of an unquoted / worthless security: still a no-op, not an error
     return dict(price=price, mult=mult, integer=integer, pos0=pos0, spread=spread, comm=comm, nested=nested, via_parent=via_parent, cls=cls, amount=a, bad=bad, j=j)
 
 
@@ -162,6 +164,13 @@ def evaluate(c, cnt):
     dcash = par.capital - cap0
     w = dict(c, q=q, dcash=dcash, value_before=v0)
     if c["bad"]:
+        if a == 0:
+            common.bump(cnt, "zero_amount_bad_price")
+            if exc is not None:
+                return common.VIOL, "c05_zero_amount_raised", dict(w, exc=str(exc)[:100])
+            if q != 0 or dcash != 0:
+                return common.VIOL, "c05_zero_amount_not_noop", w
+            return common.HELD, None, None
         if abs(a) < 1e-15:
             return common.HELD, None, None
         common.bump(cnt, "refused_bad_price" if exc is not None else "bad_price_not_refused")
